@@ -73,6 +73,7 @@ type vmOut struct {
 	Res    []any  `json:"res"`
 	Impure []int  `json:"impure"`
 	Panic  string `json:"panic,omitempty"`
+	Extra  []any  `json:"extra,omitempty"`
 }
 
 type tree = any // int64 / uint64 leaves, []any nodes
@@ -548,7 +549,13 @@ func (m *vm) inputs(op vmOp) []int {
 	return []int{op.S}
 }
 
-func vmRun(p vmProg) (out vmOut) {
+// vmHook, when set, is called after every op with the value the op wrote (nil for laws/none) and all slots;
+// what it returns is recorded in vmOut.Extra.
+type vmHook func(i int, op vmOp, written ReplicatedData, slots []ReplicatedData) any
+
+func vmRun(p vmProg) (out vmOut) { return vmRunHook(p, nil) }
+
+func vmRunHook(p vmProg, hook vmHook) (out vmOut) {
 	out.ID = p.ID
 	out.Impure = []int{}
 	m := &vm{}
@@ -573,6 +580,17 @@ func vmRun(p vmProg) (out vmOut) {
 			}
 		}
 		out.Res = append(out.Res, res)
+		if hook != nil {
+			var w ReplicatedData
+			switch op.O {
+			case "laws":
+			case "reset":
+				w = m.get(op.S)
+			default:
+				w = m.get(op.D)
+			}
+			out.Extra = append(out.Extra, hook(i, op, w, m.slots))
+		}
 	}
 	return out
 }
